@@ -31,7 +31,14 @@ P = {'id': 'C12',
               'keyed_compare_is_suffix_compare',
               'keyed_sort_is_sa',
               'keyed_sort_last_nonzero',
-              'keyed_compare_refuted'],
+              'keyed_compare_refuted',
+              'sais_classify_correct',
+              'sais_names_order_lms_substrings',
+              'sais_recursion_needed_iff_duplicate_names',
+              'sais_is_sa_partial',
+              'sais_go_is_sa_partial',
+              'sais_too_long_refused',
+              'induced_sort_lemmas_small'],
  'trusted': ['modelled (M+S): src/algorithms/suffix_array.rs SuffixArray::{compare_suffix_pattern, lower_bound, upper_bound, search_range, search}, '
              'SuffixArrayBuilder::{select_algorithm, build, build_sequential, build_parallel, dc3_construct, divsufsort_construct, '
              'larsson_sadakane_construct, fallback_sort}, LcpArray::compute_lcp_kasai, EnhancedSuffixArray::compute_bwt; '
